@@ -1108,8 +1108,9 @@ theorem fillLoop_progress (c : Consts) (hc : ConstsOk c) (pre : List Msg) (tail 
     (hnd : ∀ m ∈ pre, m.isData = false)
     (hpl : ∀ m ∈ pre, Plain c r.delims r.failOnErr m.line)
     (hr : Ready r) (hflat : r.src.flatten = wireAll c (pre.map Msg.line) ++ tail)
-    (fuel : Nat) (log : List (Bool × Bytes)) :
-    ∃ r', fillLoop c none (pre.length + fuel) r true log = fillLoop c none fuel r' true (log ++ progressOf pre) ∧
+    (fuel : Nat) (log : List (Bool × Bytes)) (intr : Option Nat)
+    (hni : ∀ k, intr = some k → log.length + (progressOf pre).length ≤ k) :
+    ∃ r', fillLoop c intr (pre.length + fuel) r true log = fillLoop c intr fuel r' true (log ++ progressOf pre) ∧
       Ready r' ∧ r'.src.flatten = tail ∧ r'.delims = r.delims ∧ r'.failOnErr = r.failOnErr := by
   induction pre generalizing r log with
   | nil =>
@@ -1135,18 +1136,24 @@ theorem fillLoop_progress (c : Consts) (hc : ConstsOk c) (pre : List Msg) (tail 
       obtain ⟨r', e1, e2, e3, e4, e5⟩ := ih r1
         (fun x hx => hnd x (by simp [hx]))
         (by intro x hx; rw [h8, h7]; exact hpl x (by simp [hx])) hr1 h4 (log ++ [(false, textFrom t)])
+        (by intro k hk; have := hni k hk; simp [progressOf] at this ⊢; omega)
+      have hne : intr ≠ some log.length := by
+        intro h; have := hni _ h; simp [progressOf] at this; omega
       refine ⟨r', ?_, e2, e3, by rw [e4, h8], by rw [e5, h7]⟩
       rw [hfu]
       conv => lhs; unfold fillLoop
       simp only [hrl, if_true, Msg.line, Msg.band, Msg.payload, decodeBand, Line.asSlice]
       simp only [show ((2 : UInt8) = 1) = False by decide, show ((2 : UInt8) = 2) = True by decide,
         if_false, if_true, show ((2 : Nat) = 1) = False by decide, show ((2 : Nat) == 3) = false by decide]
-      rw [e1]
+      rw [if_neg hne, e1]
       simp [progressOf]
     | error t =>
       obtain ⟨r', e1, e2, e3, e4, e5⟩ := ih r1
         (fun x hx => hnd x (by simp [hx]))
         (by intro x hx; rw [h8, h7]; exact hpl x (by simp [hx])) hr1 h4 (log ++ [(true, textFrom t)])
+        (by intro k hk; have := hni k hk; simp [progressOf] at this ⊢; omega)
+      have hne : intr ≠ some log.length := by
+        intro h; have := hni _ h; simp [progressOf] at this; omega
       refine ⟨r', ?_, e2, e3, by rw [e4, h8], by rw [e5, h7]⟩
       rw [hfu]
       conv => lhs; unfold fillLoop
@@ -1154,7 +1161,7 @@ theorem fillLoop_progress (c : Consts) (hc : ConstsOk c) (pre : List Msg) (tail 
       simp only [show ((3 : UInt8) = 1) = False by decide, show ((3 : UInt8) = 2) = False by decide,
         show ((3 : UInt8) = 3) = True by decide,
         if_false, if_true, show ((3 : Nat) = 1) = False by decide, show ((3 : Nat) == 3) = true by decide]
-      rw [e1]
+      rw [if_neg hne, e1]
       simp [progressOf]
 
 /-- what `band_to_write` accepts: a non-empty payload that fits together with the band byte -/
@@ -1169,13 +1176,15 @@ def pendingOf (s : SB) : Bytes :=
 /-- invariant of `WithSidebands` while messages `rem`, a flush and `rest` are still to be read -/
 structure SBInv (c : Consts) (s : SB) (rem : List Msg) (rest : Bytes) : Prop where
   handler : s.handler = true
-  noInterrupt : s.interruptAt = none
   ready : Ready s.r
   flat : s.r.src.flatten = wireAll c (rem.map Msg.line) ++ (wire c .flush ++ rest)
   plain : ∀ m ∈ rem, Plain c s.r.delims s.r.failOnErr m.line
   valid : ∀ m ∈ rem, m.Valid c
   flushDelim : s.r.delims.contains .flush = true
   slice : s.pos ≥ s.cap ∨ (s.cap ≤ s.r.buf.len ∧ s.cap ≤ s.r.buf.front.length)
+
+/-- the handler's next `n` calls are not the one it interrupts at -/
+def NoIntr (s : SB) (n : Nat) : Prop := ∀ k, s.interruptAt = some k → s.log.length + n ≤ k
 
 theorem fillBuf_pending (c : Consts) (s : SB) (rem : List Msg) (rest : Bytes) (h : SBInv c s rem rest)
     (hlt : s.pos < s.cap) : fillBuf c s = (.ok (pendingOf s), s) := by
@@ -1203,9 +1212,9 @@ theorem fillFuel_ge (c : Consts) (hc : ConstsOk c) (r : Reader) (ms : List Msg) 
 itself on the payload of the next data band -/
 theorem fillBuf_data (c : Consts) (hc : ConstsOk c) (s : SB) (pre post : List Msg) (d rest : Bytes)
     (h : SBInv c s (pre ++ Msg.data d :: post) rest) (hnd : ∀ m ∈ pre, m.isData = false)
-    (hge : s.pos ≥ s.cap) :
+    (hge : s.pos ≥ s.cap) (hni : NoIntr s (progressOf pre).length) :
     ∃ s1, fillBuf c s = (.ok d, s1) ∧ SBInv c s1 post rest ∧ s1.pos < s1.cap ∧ pendingOf s1 = d ∧
-      s1.log = s.log ++ progressOf pre := by
+      s1.log = s.log ++ progressOf pre ∧ s1.interruptAt = s.interruptAt := by
   have hc' := hc
   obtain ⟨hu, hmin, h65, hml, _⟩ := hc
   have hflat : s.r.src.flatten = wireAll c (pre.map Msg.line) ++
@@ -1214,6 +1223,7 @@ theorem fillBuf_data (c : Consts) (hc : ConstsOk c) (s : SB) (pre post : List Ms
   have hfuel := fillFuel_ge c hc' s.r pre _ (fun m hm => (h.plain m (by simp [hm])).1) hflat
   obtain ⟨r', e1, e2, e3, e4, e5⟩ := fillLoop_progress c hc' pre _ s.r hnd
     (fun m hm => h.plain m (by simp [hm])) h.ready hflat ((fillFuel s.r - pre.length - 2) + 1 + 1) s.log
+    s.interruptAt hni
   have hd := h.plain (Msg.data d) (by simp)
   have hdv := h.valid (Msg.data d) (by simp)
   obtain ⟨h1, h2, h3, h4, h5, h6, h7, h8, h9⟩ :=
@@ -1223,7 +1233,7 @@ theorem fillBuf_data (c : Consts) (hc : ConstsOk c) (s : SB) (pre post : List Ms
   have hbuf := h9 trivial
   obtain ⟨hdne, hdlen⟩ := hdv
   simp only [Msg.payload] at hdne hdlen
-  have hloop : fillLoop c none (fillFuel s.r) s.r true s.log =
+  have hloop : fillLoop c s.interruptAt (fillFuel s.r) s.r true s.log =
       (.ok (c.u16HexBytes + 1) d.length, (readLine c r').2, s.log ++ progressOf pre) := by
     rw [hfuel, e1]
     conv => lhs; unfold fillLoop
@@ -1239,9 +1249,9 @@ theorem fillBuf_data (c : Consts) (hc : ConstsOk c) (s : SB) (pre post : List Ms
     simp [this]
   have hwire := (wire_data c hc' ((1 : UInt8) :: d) hd.1).1
   refine ⟨⟨(readLine c r').2, s.handler, c.u16HexBytes + 1, d.length + (c.u16HexBytes + 1),
-    s.log ++ progressOf pre, s.interruptAt⟩, ?_, ?_, ?_, ?_, rfl⟩
+    s.log ++ progressOf pre, s.interruptAt⟩, ?_, ?_, ?_, ?_, rfl, rfl⟩
   · unfold fillBuf
-    rw [if_pos hge, h.handler, h.noInterrupt, hloop]
+    rw [if_pos hge, h.handler, hloop]
     simp only
     unfold bufSlice
     rw [hbuf]
@@ -1255,7 +1265,6 @@ theorem fillBuf_data (c : Consts) (hc : ConstsOk c) (s : SB) (pre post : List Ms
     simp [u16ToHex_length]
   · exact {
       handler := h.handler
-      noInterrupt := h.noInterrupt
       ready := ⟨h2, by rw [h6]; exact e2.noPeek, h5⟩
       flat := h4
       plain := by intro m hm; rw [h8, h7, e4, e5]; exact h.plain m (by simp [hm])
@@ -1278,21 +1287,22 @@ theorem fillBuf_data (c : Consts) (hc : ConstsOk c) (s : SB) (pre post : List Ms
 /-- with nothing pending and only progress messages before the flush, `fill_buf` delivers them
 and reports the end of the data (`Ok(&[])`), leaving the reader stopped at the flush -/
 theorem fillBuf_eof (c : Consts) (hc : ConstsOk c) (s : SB) (pre : List Msg) (rest : Bytes)
-    (h : SBInv c s pre rest) (hnd : ∀ m ∈ pre, m.isData = false) (hge : s.pos ≥ s.cap) :
+    (h : SBInv c s pre rest) (hnd : ∀ m ∈ pre, m.isData = false) (hge : s.pos ≥ s.cap)
+    (hni : NoIntr s (progressOf pre).length) :
     ∃ s1, fillBuf c s = (.ok [], s1) ∧ s1.log = s.log ++ progressOf pre ∧
       s1.r.stoppedAt = some .flush ∧ s1.r.isDone = true ∧ s1.r.src.flatten = rest := by
   have hc' := hc
   obtain ⟨hu, hmin, h65, hml, _⟩ := hc
   have hfuel := fillFuel_ge c hc' s.r pre _ (fun m hm => (h.plain m hm).1) h.flat
   obtain ⟨r', e1, e2, e3, e4, e5⟩ := fillLoop_progress c hc' pre _ s.r hnd h.plain h.ready h.flat
-    ((fillFuel s.r - pre.length - 2) + 1 + 1) s.log
+    ((fillFuel s.r - pre.length - 2) + 1 + 1) s.log s.interruptAt hni
   obtain ⟨h1, h2, h3, h4, h5, h6, h7, h8, _⟩ :=
     readLine_wire c hc' r' .flush trivial _ e2.notDone e2.noPeek e2.chunks e3
   have ho : lineOutcome c r'.delims r'.failOnErr .flush = (.none, true, some .flush) := by
     unfold lineOutcome; rw [e4, h.flushDelim]; simp
   rw [ho] at h1 h2 h3
   simp only at h1 h2 h3
-  have hloop : fillLoop c none (fillFuel s.r) s.r true s.log =
+  have hloop : fillLoop c s.interruptAt (fillFuel s.r) s.r true s.log =
       (.ok 0 0, (readLine c r').2, s.log ++ progressOf pre) := by
     rw [hfuel, e1]
     conv => lhs; unfold fillLoop
@@ -1303,7 +1313,7 @@ theorem fillBuf_eof (c : Consts) (hc : ConstsOk c) (s : SB) (pre : List Msg) (re
     rfl
   refine ⟨⟨(readLine c r').2, s.handler, 0, 0 + 0, s.log ++ progressOf pre, s.interruptAt⟩, ?_, rfl, h3, h2, h4⟩
   unfold fillBuf
-  rw [if_pos hge, h.handler, h.noInterrupt, hloop]
+  rw [if_pos hge, h.handler, hloop]
   simp only
   unfold bufSlice
   rw [if_pos ⟨by omega, by omega, by omega⟩]
@@ -1315,7 +1325,7 @@ theorem sbRead_of_fill (c : Consts) (s s1 : SB) (p : Bytes) (n : Nat) (rem : Lis
     (hfill : fillBuf c s = (.ok p, s1)) (hinv : SBInv c s1 rem rest) (hlt : s1.pos < s1.cap)
     (hp : pendingOf s1 = p) :
     ∃ s2, sbRead c s n = (.ok (p.take n), s2) ∧ SBInv c s2 rem rest ∧ pendingOf s2 = p.drop n ∧
-      s2.log = s1.log := by
+      s2.log = s1.log ∧ s2.interruptAt = s1.interruptAt := by
   have hsl : s1.cap ≤ s1.r.buf.len ∧ s1.cap ≤ s1.r.buf.front.length := by
     rcases hinv.slice with h | h
     · omega
@@ -1325,10 +1335,10 @@ theorem sbRead_of_fill (c : Consts) (s s1 : SB) (p : Bytes) (n : Nat) (rem : Lis
     rw [if_neg (by omega)]
     simp only [List.length_drop, List.length_take]
     omega
-  refine ⟨{ s1 with pos := min (s1.pos + (p.take n).length) s1.cap }, ?_, ?_, ?_, rfl⟩
+  refine ⟨{ s1 with pos := min (s1.pos + (p.take n).length) s1.cap }, ?_, ?_, ?_, rfl, rfl⟩
   · unfold sbRead
     rw [hfill]
-  · exact { handler := hinv.handler, noInterrupt := hinv.noInterrupt, ready := hinv.ready, flat := hinv.flat, plain := hinv.plain,
+  · exact { handler := hinv.handler, ready := hinv.ready, flat := hinv.flat, plain := hinv.plain,
             valid := hinv.valid, flushDelim := hinv.flushDelim, slice := Or.inr hsl }
   · unfold pendingOf
     simp only [List.length_take]
@@ -1373,7 +1383,7 @@ theorem take_ne_nil (p : Bytes) (n : Nat) (hp : p ≠ []) (hn : 0 < n) : (p.take
     | succ k => rfl
 
 theorem drain_spec (c : Consts) (hc : ConstsOk c) (ns : List Nat) (hpos : ∀ n ∈ ns, 0 < n) (s : SB)
-    (rem : List Msg) (rest acc : Bytes) (h : SBInv c s rem rest) :
+    (rem : List Msg) (rest acc : Bytes) (h : SBInv c s rem rest) (hni : NoIntr s (progressOf rem).length) :
     DrainOk c s rem rest acc ns (drain c s ns acc) := by
   induction ns generalizing s rem acc with
   | nil =>
@@ -1386,11 +1396,12 @@ theorem drain_spec (c : Consts) (hc : ConstsOk c) (ns : List Nat) (hpos : ∀ n 
     by_cases hlt : s.pos < s.cap
     · -- inside a data band
       have hfill := fillBuf_pending c s rem rest h hlt
-      obtain ⟨s2, e1, e2, e3, e4⟩ := sbRead_of_fill c s s (pendingOf s) n rem rest hfill h hlt rfl
+      obtain ⟨s2, e1, e2, e3, e4, e4i⟩ := sbRead_of_fill c s s (pendingOf s) n rem rest hfill h hlt rfl
       have hne := pendingOf_ne_nil c s rem rest h hlt
       rw [e1]
       simp only [take_ne_nil _ n hne hn, Bool.false_eq_true, if_false]
       have := ih hpos' s2 rem (acc ++ (pendingOf s).take n) e2
+        (by intro k hk; rw [e4i] at hk; rw [e4]; exact hni k hk)
       have hcat : acc ++ List.take n (pendingOf s) ++ pendingOf s2 ++ dataOf rem =
           acc ++ pendingOf s ++ dataOf rem := by
         rw [e3]; simp [List.append_assoc]
@@ -1411,7 +1422,7 @@ theorem drain_spec (c : Consts) (hc : ConstsOk c) (ns : List Nat) (hpos : ∀ n 
       have hpend : pendingOf s = [] := by unfold pendingOf; rw [if_pos hge]
       rcases split_first_data rem with hnd | ⟨pre, d, post, hrem, hnd⟩
       · -- only progress messages before the flush
-        obtain ⟨s1, e1, e2, e3, e4, e5⟩ := fillBuf_eof c hc s rem rest h hnd hge
+        obtain ⟨s1, e1, e2, e3, e4, e5⟩ := fillBuf_eof c hc s rem rest h hnd hge hni
         have hsb : sbRead c s n = (.ok [], { s1 with pos := min (s1.pos + 0) s1.cap }) := by
           unfold sbRead; rw [e1]; simp
         rw [hsb]
@@ -1421,12 +1432,17 @@ theorem drain_spec (c : Consts) (hc : ConstsOk c) (ns : List Nat) (hpos : ∀ n 
           exact ⟨by simp [hpend, dataOf_nodata rem hnd], e2, e3, e4, e5⟩
         · intro hs; cases hs
       · subst hrem
-        obtain ⟨s1, e1, e2, e3, e4, e5⟩ := fillBuf_data c hc s pre post d rest h hnd hge
-        obtain ⟨s2, f1, f2, f3, f4⟩ := sbRead_of_fill c s s1 d n post rest e1 e2 e3 e4
+        have hprog0 : progressOf (pre ++ Msg.data d :: post) = progressOf pre ++ progressOf post := by
+          rw [progressOf_append]; rfl
+        obtain ⟨s1, e1, e2, e3, e4, e5, e5i⟩ := fillBuf_data c hc s pre post d rest h hnd hge
+          (by intro k hk; have := hni k hk; rw [hprog0] at this; simp only [List.length_append] at this; omega)
+        obtain ⟨s2, f1, f2, f3, f4, f4i⟩ := sbRead_of_fill c s s1 d n post rest e1 e2 e3 e4
         have hdne : d ≠ [] := (h.valid (Msg.data d) (by simp)).1
         rw [f1]
         simp only [take_ne_nil _ n hdne hn, Bool.false_eq_true, if_false]
         have := ih hpos' s2 post (acc ++ d.take n) f2
+          (by intro k hk; rw [f4i, e5i] at hk; have := hni k hk; rw [hprog0] at this
+              rw [f4, e5]; simp only [List.length_append] at this ⊢; omega)
         have hdata : dataOf (pre ++ Msg.data d :: post) = d ++ dataOf post := by
           rw [dataOf_append, dataOf_nodata pre hnd]; rfl
         have hprog : progressOf (pre ++ Msg.data d :: post) = progressOf pre ++ progressOf post := by
